@@ -132,13 +132,12 @@ impl Ls {
         let metadata = match file_info.metadata() {
             Ok(metadata) => metadata,
             Err(e) => {
-                writeln!(
+                let _ = writeln!(
                     &mut stderr(),
                     "Error getting metadata for {}: {}",
                     file_info.path().to_string_lossy(),
                     e
-                )
-                .unwrap();
+                );
                 matcher_io.set_exit_code(1);
                 return;
             }
@@ -202,13 +201,12 @@ impl Ls {
             Ok(_) => {}
             Err(e) => {
                 if print_error_message {
-                    writeln!(
+                    let _ = writeln!(
                         &mut stderr(),
                         "Error writing {:?} for {}",
                         file_info.path().to_string_lossy(),
                         e
-                    )
-                    .unwrap();
+                    );
                     matcher_io.set_exit_code(1);
                 }
             }
@@ -271,13 +269,12 @@ impl Ls {
             Ok(_) => {}
             Err(e) => {
                 if print_error_message {
-                    writeln!(
+                    let _ = writeln!(
                         &mut stderr(),
                         "Error writing {:?} for {}",
                         file_info.path().to_string_lossy(),
                         e
-                    )
-                    .unwrap();
+                    );
                     matcher_io.set_exit_code(1);
                 }
             }
